@@ -9,7 +9,7 @@ import numpy
 import torch
 import torch.autograd.functional as torch_autograd_functional
 
-from .base import BackendProvider, UnsupportedDtypeError, is_jagged_array
+from .base import BackendProvider, UnsupportedDtypeError, is_jagged_array, kg_nest_shape, kg_ragged_array
 from ..autograd import AutogradChainBrokenError, NonScalarLossError, _invoke_fn
 
 # numpy 2.x moved VisibleDeprecationWarning to numpy.exceptions
@@ -1115,6 +1115,8 @@ class TorchBackendProvider(BackendProvider):
                     except (ValueError, TypeError):
                         return numpy.asarray([_numpy_convert(i) for i in x], dtype=object)
                 return x
+            if isinstance(a, (list, tuple)) and kg_nest_shape(a) is None:
+                return kg_ragged_array(a, _numpy_convert)
             try:
                 arr = numpy.asarray(a, dtype=object)
                 # Recursively convert inner lists to numpy arrays
